@@ -218,6 +218,12 @@ fn gen_req() -> GenReq {
         for i in 0..draw(4) {
             m.insert(format!("v{i}"), gen_json(0));
         }
+        // now and then a body larger than the 2 KiB read buffer, with non-ASCII text around the boundary
+        if chance(1, 5) {
+            let unit = ["ab", "é", "名x", "\u{1F600}z"][draw(4) as usize];
+            let n = 1500 + draw(3000) as usize;
+            m.insert("pad".into(), json!(unit.repeat(n / unit.len() + 1)));
+        }
         Some(J::Object(m))
     } else {
         None
@@ -1071,9 +1077,14 @@ fn c12_ws(out: &mut CaseOut) {
     let d2 = done.clone();
     sim::spawn_local("ws-consumer", async move {
         let mut ws = Box::pin(ws);
+        let mut items = 0u32;
         while let Some(m) = ws.next().await {
             if let WsMessage::Close(_, _) = m {
                 sim::count("probe:ws-closed-on-hostile-input");
+            }
+            items += 1;
+            if items % 64 == 0 {
+                sim::yield_now().await;
             }
         }
         d2.set(true);
